@@ -13,8 +13,8 @@
    B1            code generation (compile_ufl_objects)
    B3            root handlers swapped; cffi starts compiling (so becomes partial)
    B4            cffi finishes linking (so complete)
-   B5            open(cached,'x')
-   B6            write the build log into the marker, close
+   B5            open(cached,'x')                          | atomic_marker: write the build log into a temporary file
+   B6            write the build log into the marker, close | atomic_marker: os.replace(temporary, cached)
    B7            restore handlers, return from _compile_objects
    B8            _load_objects (reads so)
    BX            except: os.replace(c, failed); re-raise
@@ -43,6 +43,10 @@ Variable timeout : nat.
 (* does _compile_objects restore the root logger handlers when the build raises?
    (regenerated from the source: try/finally around the compile) *)
 Variable restore_on_fault : bool.
+(* is the ready marker published in one atomic step AFTER its content was written
+   (write to a temporary file, os.replace) rather than created empty and filled?
+   (regenerated from the source) *)
+Variable atomic_marker : bool.
 
 Definition init : state :=
   {| s_fs := {| f_c := false; f_cached := false; f_failed := false; f_so := SoAbsent |};
@@ -76,9 +80,13 @@ Definition step_proc (f : fsys) (p : proc) (ch : choice) : option (fsys * proc *
   | B4, Normal => Some (set_so f SoComplete, goto B5, true)
   | B4, Fault => Some (f, {| p_pc := BX; p_swapped := if restore_on_fault then false else sw |}, false)
   | B5, Normal =>
-      if f_cached f then Some (f, {| p_pc := BX; p_swapped := if restore_on_fault then false else sw |}, false)
+      if atomic_marker then Some (f, goto B6, false)
+      else if f_cached f then Some (f, {| p_pc := BX; p_swapped := if restore_on_fault then false else sw |}, false)
       else Some (set_cached f true, goto B6, false)
-  | B6, Normal => Some (f, goto B7, false)
+  | B5, Fault =>
+      if atomic_marker then Some (f, {| p_pc := BX; p_swapped := if restore_on_fault then false else sw |}, false)
+      else None
+  | B6, Normal => if atomic_marker then Some (set_cached f true, goto B7, false) else Some (f, goto B7, false)
   | B6, Fault => Some (f, {| p_pc := BX; p_swapped := if restore_on_fault then false else sw |}, false)
   | B7, Normal => Some (f, {| p_pc := B8; p_swapped := false |}, false)
   | BX, Normal => Some (fail_rename f, goto (Done RaisedBuild), false)
@@ -118,8 +126,9 @@ Fixpoint run (s : state) (es : list event) : state :=
   end.
 
 (* ------------------------------------------------------------------ *)
-(* Invariant.  It is claimed for traces without a fault in the window between creating
-   the marker and returning (a process at B6): see [good]. *)
+(* Invariant.  With the marker created empty and then filled (atomic_marker = false) it is claimed
+   for traces without a fault in the window between creating the marker and returning (a process
+   at B6): see [good].  With atomic publication [good] holds of every event. *)
 
 Definition is_builder (p : proc) : bool :=
   match p_pc p with B1 | B3 | B4 | B5 | B6 | B7 | BX => true | _ => false end.
@@ -130,7 +139,8 @@ Definition ok (f : fsys) (p : proc) : Prop :=
   match p_pc p with
   | B1 | B3 | B4 | BX => f_cached f = false
   | B5 => f_cached f = false /\ f_so f = SoComplete
-  | B6 | B7 | B8 | WL => f_cached f = true
+  | B6 => if atomic_marker then f_cached f = false /\ f_so f = SoComplete else f_cached f = true
+  | B7 | B8 | WL => f_cached f = true
   | Done LoadedPartial => False
   | _ => True
   end.
@@ -144,7 +154,7 @@ Definition Inv (s : state) : Prop :=
 Definition good (s : state) (e : event) : Prop :=
   match e with
   | Step pid Fault => match nth_error (s_procs s) pid with
-                      | Some p => p_pc p <> B6
+                      | Some p => p_pc p = B6 -> atomic_marker = true
                       | None => True
                       end
   | _ => True
@@ -317,18 +327,31 @@ Proof.
     + inversion Hp; subst; clear Hp. simpl in *. rewrite (Hlock eq_refl) in *.
       split; [lia|]. split; [exact H2|]. others_same. exact I.
     (* B5 Normal *)
-    + destruct Hok as [Hcd Hso]. rewrite Hcd in Hp. inversion Hp; subst; clear Hp. simpl in *.
-      rewrite (Hlock eq_refl) in *.
-      split; [lia|]. split; [intros _; split; [reflexivity | exact Hso]|].
-      apply (Forall_set_nth_others (ok (s_fs s)) _ _ _ _ H3); [unfold ok; simpl; reflexivity|].
-      intros m q Hm Hq Hokq. apply (ok_nonbuilder_mono (s_fs s)); auto. eapply Hoth; eauto.
+    + destruct Hok as [Hcd Hso]. destruct atomic_marker eqn:Eat.
+      * inversion Hp; subst; clear Hp. simpl in *. split; [lia|]. split; [exact H2|]. others_same.
+        unfold ok. simpl. rewrite Eat. auto.
+      * rewrite Hcd in Hp. inversion Hp; subst; clear Hp. simpl in *.
+        rewrite (Hlock eq_refl) in *.
+        split; [lia|]. split; [intros _; split; [reflexivity | exact Hso]|].
+        apply (Forall_set_nth_others (ok (s_fs s)) _ _ _ _ H3); [unfold ok; simpl; rewrite Eat; reflexivity|].
+        intros m q Hm Hq Hokq. apply (ok_nonbuilder_mono (s_fs s)); auto. eapply Hoth; eauto.
+    (* B5 Fault: only with atomic publication (writing the temporary file fails) *)
+    + destruct atomic_marker eqn:Eat; [|discriminate]. destruct Hok as [Hcd Hso].
+      inversion Hp; subst; clear Hp. simpl in *. split; [lia|]. split; [exact H2|]. others_same. exact Hcd.
     (* B5 Kill *)
     + inversion Hp; subst; clear Hp. simpl in *. rewrite (Hlock eq_refl) in *.
       split; [lia|]. split; [exact H2|]. others_same. exact I.
     (* B6 Normal *)
-    + inversion Hp; subst; clear Hp. simpl in *. split; [lia|]. split; [exact H2|]. others_same. exact Hok.
-    (* B6 Fault: excluded *)
-    + exfalso. apply Hg. reflexivity.
+    + destruct atomic_marker eqn:Eat.
+      * destruct Hok as [Hcd Hso]. inversion Hp; subst; clear Hp. simpl in *.
+        rewrite (Hlock eq_refl) in *.
+        split; [lia|]. split; [intros _; split; [reflexivity | exact Hso]|].
+        apply (Forall_set_nth_others (ok (s_fs s)) _ _ _ _ H3); [unfold ok; simpl; reflexivity|].
+        intros m q Hm Hq Hokq. apply (ok_nonbuilder_mono (s_fs s)); auto. eapply Hoth; eauto.
+      * inversion Hp; subst; clear Hp. simpl in *. split; [lia|]. split; [exact H2|]. others_same. exact Hok.
+    (* B6 Fault: excluded unless publication is atomic (then the marker does not exist yet) *)
+    + specialize (Hg eq_refl). rewrite Hg in Hok. destruct Hok as [Hcd Hso].
+      inversion Hp; subst; clear Hp. simpl in *. split; [lia|]. split; [exact H2|]. others_same. exact Hcd.
     (* B6 Kill *)
     + inversion Hp; subst; clear Hp. simpl in *. rewrite (Hlock eq_refl) in *.
       split; [lia|]. split; [exact H2|]. others_same. exact I.
@@ -397,6 +420,35 @@ Theorem marker_means_complete es :
   f_c (s_fs (run init es)) = true /\ f_so (s_fs (run init es)) = SoComplete.
 Proof. intros Hg. destruct (run_Inv es init Inv_init Hg) as [_ [H2 _]]. exact H2. Qed.
 
+(* with atomic publication of the marker nothing is excluded: every trace is good *)
+Lemma good_atomic s e : atomic_marker = true -> good s e.
+Proof.
+  intros Ha. destruct e as [|pid [| |]]; simpl; auto.
+  destruct (nth_error (s_procs s) pid); auto.
+Qed.
+
+Lemma good_trace_atomic : atomic_marker = true -> forall es s, good_trace s es.
+Proof.
+  intros Ha. induction es as [|e es IH]; intros s; simpl; [exact I|].
+  destruct (step s e); [split; [apply good_atomic; exact Ha | apply IH] | apply IH].
+Qed.
+
+(* C15 at full strength: any number of requests, any interleaving, a failure at every step that can
+   fail (code generation, compile, link, writing the log, publishing the marker) and a kill anywhere *)
+Theorem no_partial_load_any_trace es p :
+  atomic_marker = true -> In p (s_procs (run init es)) -> p_pc p <> Done LoadedPartial.
+Proof. intros Ha. apply no_partial_load. apply good_trace_atomic. exact Ha. Qed.
+
+Theorem mutual_exclusion_any_trace es :
+  atomic_marker = true -> builders (s_procs (run init es)) <= 1.
+Proof. intros Ha. apply mutual_exclusion. apply good_trace_atomic. exact Ha. Qed.
+
+Theorem marker_means_complete_any_trace es :
+  atomic_marker = true ->
+  f_cached (s_fs (run init es)) = true ->
+  f_c (s_fs (run init es)) = true /\ f_so (s_fs (run init es)) = SoComplete.
+Proof. intros Ha. apply marker_means_complete. apply good_trace_atomic. exact Ha. Qed.
+
 (* ---------- C14: exactly one compile, reuse ---------- *)
 
 Definition pre4 (p : proc) : bool := match p_pc p with B1 | B3 | B4 => true | _ => false end.
@@ -444,8 +496,10 @@ Proof.
         (split; [try rewrite Ec; lia | eapply Hrest; [|reflexivity]; discriminate]).
     + destruct (Nat.eqb i timeout); [|destruct (f_cached (s_fs s))]; inversion Hp; subst; clear Hp;
         simpl in *; (split; [destruct (f_c (s_fs s)); lia | eapply Hrest; [|reflexivity]; discriminate]).
-    + destruct Hok as [Hcd _]. rewrite Hcd in Hp. inversion Hp; subst; clear Hp; simpl in *.
-      split; [destruct (f_c (s_fs s)); lia | eapply Hrest; [|reflexivity]; discriminate].
+    + destruct Hok as [Hcd _]. destruct atomic_marker; [|rewrite Hcd in Hp]; inversion Hp; subst; clear Hp; simpl in *;
+        (split; [destruct (f_c (s_fs s)); lia | eapply Hrest; [|reflexivity]; discriminate]).
+    + destruct atomic_marker; inversion Hp; subst; clear Hp; simpl in *;
+        (split; [destruct (f_c (s_fs s)); lia | eapply Hrest; [|reflexivity]; discriminate]).
 Qed.
 
 Fixpoint no_fault_trace (es : list event) : Prop :=
@@ -551,17 +605,28 @@ Definition summary (s : state) : list (nat * bool) * (bool * bool * bool * nat) 
    root logger handlers swapped in a process that returns an exception to its caller *)
 Example handlers_not_restored_without_finally :
   existsb (fun p => Nat.eqb (pc_code (p_pc p)) 4 && p_swapped p)
-          (s_procs (run 10 false init [Spawn; Step 0 Normal; Step 0 Normal; Step 0 Fault; Step 0 Normal])) = true.
+          (s_procs (run 10 false false init [Spawn; Step 0 Normal; Step 0 Normal; Step 0 Fault; Step 0 Normal])) = true.
 Proof. vm_compute. reflexivity. Qed.
 
-(* and a fault in the window after the marker was created poisons the cache: the marker stays,
-   the lock is released, a later builder rewrites the module under a present marker and a third
-   request can load it half-written *)
+(* and, with the marker created empty and then filled (the code as it stood), a fault in the window
+   after the marker was created poisons the cache: the marker stays, the lock is released, a later
+   builder rewrites the module under a present marker and a third request can load it half-written *)
 Example marker_window_refuted :
   existsb (fun p => Nat.eqb (pc_code (p_pc p)) 1)
-    (s_procs (run 10 true init
+    (s_procs (run 10 true false init
       [Spawn; Step 0 Normal; Step 0 Normal; Step 0 Normal; Step 0 Normal; Step 0 Normal;
        Step 0 Fault; Step 0 Normal;
        Spawn; Step 1 Normal; Step 1 Normal; Step 1 Normal;
        Spawn; Step 2 Normal; Step 2 Normal; Step 2 Normal])) = true.
+Proof. vm_compute. reflexivity. Qed.
+
+(* the same schedule with atomic publication: the failed write leaves no marker, the second request
+   builds, the third waits *)
+Example marker_window_closed :
+  existsb (fun p => Nat.eqb (pc_code (p_pc p)) 1)
+    (s_procs (run 10 true true init
+      [Spawn; Step 0 Normal; Step 0 Normal; Step 0 Normal; Step 0 Normal;
+       Step 0 Fault; Step 0 Normal;
+       Spawn; Step 1 Normal; Step 1 Normal; Step 1 Normal;
+       Spawn; Step 2 Normal; Step 2 Normal; Step 2 Normal])) = false.
 Proof. vm_compute. reflexivity. Qed.
